@@ -211,6 +211,45 @@ _scan_site = [
     ("right-maximal", "idx >= endIdx or not " + P.format(j="idx")),
     ("non-empty", "start < current_idx"),
 ]
+# completeness (taken from the property: *exactly* the maximal runs): every maximal run [a, e) of the scanned
+# window whose length reaches the minimum and whose clip to [sIdx, eIdx] is non-empty is an element of the list
+Q = "(app(predicate, self.sb[{j}]) and {j} < endIdx)"
+_maxrun = ("(forall(j, a, e, " + Q.format(j="j") + ") and (a == startIdx or not " + Q.format(j="a - 1") + ") and not "
+           + Q.format(j="e") + ")")
+_qual = "(e - a >= minDurationSlots and ite(a < sIdx, sIdx, a) < ite(e > eIdx, eIdx, e))"
+_found = ("exists(k, 0, len({L}), {L}[k].start == T(self, ite(a < sIdx, sIdx, a)) and "
+          "{L}[k].end == T(self, ite(e > eIdx, eIdx, e)))")
+_complete = ("forall(e, startIdx + 1, {hi}, forall(a, startIdx, e, implies(" + _maxrun + " and " + _qual + ", " + _found + ")))")
+# the same statement over the parameters only (postcondition): window, minimum and scan range as the property reads
+ghost("DIq", ["sb", "d"], "trunc((secs(d) - secs(sb.startDate)) / sb.resolution)")
+ghost("DI", ["sb", "d"], "ite(DIq(sb, d) < 0, 0, ite(DIq(sb, d) >= sb.size, sb.size - 1, DIq(sb, d)))")
+ghost("MS", ["sb", "m"], "ite(trunc(m / sb.resolution) <= 0, 1, trunc(m / sb.resolution))")
+ghost("LO", ["sb", "iv", "m"], "ite(DI(sb, iv.start) - MS(sb, m) < 0, 0, DI(sb, iv.start) - MS(sb, m))")
+ghost("HI", ["sb", "iv", "m"], "ite(DI(sb, iv.end) + MS(sb, m) > sb.size - 1, sb.size - 1, DI(sb, iv.end) + MS(sb, m))")
+_post_names = {"startIdx": "LO(self, iv, minDuration)", "endIdx": "HI(self, iv, minDuration)",
+               "sIdx": "DI(self, iv.start)", "eIdx": "DI(self, iv.end)", "minDurationSlots": "MS(self, minDuration)"}
+
+
+def _over_params(src):
+    import re
+    return re.sub(r"\b(startIdx|endIdx|sIdx|eIdx|minDurationSlots)\b", lambda m: _post_names[m.group(1)], src)
+
+
+# ... and over the whole table (lemma scan_reports_every_table_run below): the maximal runs of the *table* (its final
+# padding slot never counts: it starts at or after the end date), not only of the scanned part of it
+QT = "(app(predicate, self.sb[{j}]) and {j} < self.size - 1)"
+_maxrun_t = ("(forall(j, a, e, " + QT.format(j="j") + ") and (a == 0 or not " + QT.format(j="a - 1") + ") and not "
+             + QT.format(j="e") + ")")
+
+
+def _at(src, a, e, obj="sb"):
+    """clause template at explicit run bounds (a, e) -- the universal instance a proof step names"""
+    import re
+    src = re.sub(r"\ba\b", "(" + a + ")", src)
+    src = re.sub(r"\be\b", "(" + e + ")", src)
+    return src.replace("self", obj)
+
+
 _scan_params = {"self": Ref("Scoreboard"), "iv": Ref("TimeInterval"), "minDuration": Real,
                 "predicate": Fn([Slot], Bool)}
 _scan_locals = {"intervals": List(Ref("TimeInterval")), "val": Slot}
@@ -220,16 +259,30 @@ contract(
     params=_scan_params, ret=List(Ref("TimeInterval")),
     consts={"_USE_CYTHON": False},
     requires=[("wf", "SBwf(self)"), ("min", "minDuration >= 0")],
-    ensures=[],
+    ensures=[("complete", _over_params(_complete.format(hi="endIdx + 1", L="result")))],
     calls={
         "self.dateToIdx": ("contract", SB + "::Scoreboard.dateToIdx#py"),
         "self.idxToDate": ("contract", SB + "::Scoreboard.idxToDate#py"),
         "TimeInterval": ("new", "TimeInterval", ["start", "end"]),
         "intervals.append": ("check", _scan_site, None),
     },
-    loops={0: {"inv": _scan_inv, "decreases": "endIdx + 1 - idx"}},
+    loops={0: {"inv": _scan_inv + [("complete", _complete.format(hi="idx", L="intervals"))],
+               "decreases": "endIdx + 1 - idx"}},
     locals=_scan_locals,
 )
+
+_cy_names = {"startIdx": "start_idx", "endIdx": "end_idx", "sIdx": "s_idx", "eIdx": "e_idx",
+             "minDurationSlots": "min_duration_slots"}
+
+
+def _cy(src):
+    import re
+    src = re.sub(r"\b(startIdx|endIdx|sIdx|eIdx|minDurationSlots)\b", lambda m: _cy_names[m.group(1)], src)
+    src = src.replace("self.sb[", "sb[").replace("T(self, ", "TC(start_date, resolution, ")
+    return src
+
+
+ghost("TC", ["s", "r", "i"], "dt(secs(s) + i * r)")
 
 contract(
     CY + "::collect_intervals_fast", props=["C17", "C13"], cython=True,
@@ -240,7 +293,7 @@ contract(
     requires=[("start", "start_idx >= 0"), ("res", "resolution >= 1"), ("size", "size >= 1 and len(sb) == size"),
               ("end", "end_idx <= size - 1"), ("window", "0 <= s_idx and e_idx <= size - 1"),
               ("c-horizon", f"size * resolution <= {I32}")],
-    ensures=[],
+    ensures=[("complete", _cy(_complete.format(hi="endIdx + 1", L="result")))],
     calls={"interval_class": ("new", "TimeInterval", ["start", "end"]),
            "intervals.append": ("check", [
                ("is-run", "forall(j, start, current_idx, app(predicate, sb[j]))"),
@@ -260,6 +313,7 @@ contract(
         ("run", "implies(duration > 0, forall(j, idx - duration, idx, app(predicate, sb[j])))"),
         ("left-maximal", "implies(duration > 0 and idx - duration > start_idx, not app(predicate, sb[idx - duration - 1]))"),
         ("gap", "implies(duration == 0 and idx > start_idx and idx <= end_idx, not app(predicate, sb[idx - 1]))"),
+        ("complete", _cy(_complete.format(hi="idx", L="intervals"))),
     ], "decreases": "end_idx + 1 - idx"}},
     locals={"intervals": List(Ref("TimeInterval")), "val": Slot},
 )
@@ -277,10 +331,49 @@ contract(
                           f"(secs(iv.start) - secs(self.startDate)) / self.resolution <= {I32} and "
                           f"-{I32} <= (secs(iv.end) - secs(self.startDate)) / self.resolution and "
                           f"(secs(iv.end) - secs(self.startDate)) / self.resolution <= {I32}")],
-    ensures=[],
+    ensures=[("complete", _over_params(_complete.format(hi="endIdx + 1", L="result")))],
     calls={
         "self.dateToIdx": ("contract", SB + "::Scoreboard.dateToIdx#cy"),
         "collect_intervals_fast": ("contract", CY + "::collect_intervals_fast"),
     },
     locals=_scan_locals,
 )
+
+
+# ---------------------------------------------------------------------------------------------
+# Lemma over the contract of collectIntervals (both configurations): *every* maximal run [a, e) of the table that
+# reaches the minimum length and meets the query window is in the returned list, clipped to the window. a and e are
+# parameters, i.e. arbitrary. The proof names the instance of the callee's `complete` clause: the run cut to the
+# scanned range [LO, HI] (three ghost assertions before the return: it is a maximal run of the scanned range, it
+# still qualifies, hence it is in the list), and the clip of the cut run is the clip of the run.
+_A2 = "ite(a > LO(sb, iv, minDuration), a, LO(sb, iv, minDuration))"
+_E2 = "ite(e < HI(sb, iv, minDuration), e, HI(sb, iv, minDuration))"
+for _v in ("py", "cy"):
+    _extra = ([("c-horizon", f"sb.size * sb.resolution <= {I32} and sb.resolution <= {I32} and sb.size <= {I32}"),
+               ("c-min", f"minDuration / sb.resolution <= {I32}"),
+               ("usec", "isint((secs(iv.start) - secs(sb.startDate)) * 1000000) and "
+                        "isint((secs(iv.end) - secs(sb.startDate)) * 1000000)"),
+               ("c-range", f"-{I32} <= (secs(iv.start) - secs(sb.startDate)) / sb.resolution and "
+                           f"(secs(iv.start) - secs(sb.startDate)) / sb.resolution <= {I32} and "
+                           f"-{I32} <= (secs(iv.end) - secs(sb.startDate)) / sb.resolution and "
+                           f"(secs(iv.end) - secs(sb.startDate)) / sb.resolution <= {I32}")] if _v == "cy" else [])
+    contract(
+        "lemma::scan_reports_every_table_run", variant=_v, props=["C17", "C13"],
+        client_src="def lemma(sb, iv, minDuration, predicate, a, e):\n"
+                   "    r = sb.collectIntervals(iv, minDuration, predicate)\n"
+                   "    return r\n",
+        params={"sb": Ref("Scoreboard"), "iv": Ref("TimeInterval"), "minDuration": Real,
+                "predicate": Fn([Slot], Bool), "a": Int, "e": Int},
+        ret=List(Ref("TimeInterval")),
+        requires=[("wf", "SBwf(sb)"), ("min", "minDuration >= 0"), ("ae", "0 <= a and a < e and e < sb.size"),
+                  ("table-run", _at(_maxrun_t, "a", "e")),
+                  ("qualifies", _at(_over_params(_qual), "a", "e"))] + _extra,
+        ensures=[("reported", _at(_over_params(_found.format(L="result")), "a", "e"))],
+        cuts={"return r": [
+            ("scan-run", _at(_over_params(_maxrun), _A2, _E2)),
+            ("scan-qualifies", _at(_over_params(_qual), _A2, _E2)),
+            ("scan-reported", _at(_over_params(_found.format(L="r")), _A2, _E2)),
+        ]},
+        calls={"sb.collectIntervals": ("contract", SB + "::Scoreboard.collectIntervals#" + _v)},
+        may_raise=[],
+    )
